@@ -23,7 +23,8 @@ def real_inspect(nodes: List[Dict[str, Any]]) -> Dict[str, Any]:
     from semantiva.exceptions import PipelineConfigurationError
     from semantiva.inspection import build_pipeline_inspection, validate_pipeline
 
-    insp = build_pipeline_inspection(copy.deepcopy(nodes))
+    obj = copy.deepcopy(nodes)          # THE configuration object: inspected here, and run afterwards (as `semantiva run` does)
+    insp = build_pipeline_inspection(obj)
     clean, err = True, ""
     try:
         validate_pipeline(insp)
@@ -44,7 +45,7 @@ def real_inspect(nodes: List[Dict[str, Any]]) -> Dict[str, Any]:
             "invalid": sorted(i_["name"] for i_ in ni.invalid_parameters),
             "unbuildable": ni.node_class == "Invalid",
         })
-    return {"clean": clean, "err": err, "req": set(insp.required_context_keys), "facts": facts}
+    return {"clean": clean, "err": err, "req": set(insp.required_context_keys), "facts": facts, "obj": obj}
 
 
 def runtime_invalid(nodes) -> Optional[List[str]]:
@@ -145,7 +146,8 @@ def replay_chunk(cases: List[Dict[str, Any]]):
         if not ri["req"] <= set(ictx):
             continue
         out["antecedent"] += 1
-        obs = run_nodes(nodes, g_data(case["idata"]), ictx)
+        # the run is built from the very object that was inspected (run_nodes takes a private copy of it per run)
+        obs = run_nodes(ri["obj"], g_data(case["idata"]), ictx)
         if obs["construct_error"]:
             out["drift"].append(f"{pk}: loader rejected: {obs['construct_error'][:100]}")
             continue
